@@ -1,1 +1,566 @@
+//! C05 — a client subscription stream yields exactly its own notifications, in order.
+//!
+//! Real client over the simulated transport. 1-4 subscriptions (+ optionally a method-notification handler),
+//! per-subscription buffers of 1/2/3/8, consumer tasks that read eagerly / slowly / not at all, explicit
+//! `unsubscribe()` or drop at drawn points. The scripted peer pushes notifications for live / ended / unknown
+//! subscription ids, close notifications and method notifications, singly or grouped into arrays, before and
+//! after the subscribe responses. The oracle is an exact routing + buffer-occupancy model driven by stamped
+//! events ("push p was handed to the client", "consumer took an item").
 
+use std::collections::BTreeMap;
+use std::sync::atomic::{AtomicBool, Ordering};
+use std::sync::{Arc, Mutex};
+use std::time::Duration;
+
+use jsonrpsee_core::client::{Client, Error, IdKind, Subscription, SubscriptionClientT, SubscriptionKind};
+use jsonrpsee_core::rpc_params;
+use serde_json::{Value, json};
+
+use super::{Parsed, Wire, err_response, method_notif, ok_response, parse_out, sub_close, sub_notif};
+use crate::rt;
+
+const P: &str = "C05";
+
+#[derive(Debug, Clone, Copy, PartialEq)]
+enum Pace {
+	Eager,
+	Slow,
+	Stalled,
+}
+
+#[derive(Debug, Clone, Copy, PartialEq)]
+enum EndAct {
+	ReadToEnd,
+	UnsubscribeAfter(u32),
+	DropAfter(u32),
+}
+
+#[derive(Debug, Clone)]
+enum PushKind {
+	Notif { sub: String, payload: u64 },
+	Close { sub: String },
+	Method { name: String, payload: u64 },
+}
+
+#[derive(Debug, Clone)]
+struct PushRec {
+	seq: u64,
+	kind: PushKind,
+	grouped: bool,
+}
+
+#[derive(Debug, Default, Clone)]
+struct SubRec {
+	nonce: u64,
+	sub_id: Option<String>,
+	refused: bool,
+	/// wire push seq of the subscribe response
+	accept_seq: Option<u64>,
+	yields: Vec<(u64, u64)>,
+	ended: Option<(u64, String)>,
+	user_end: Option<(u64, &'static str)>,
+	server_close_planned: bool,
+}
+
+pub async fn scenario() {
+	let n_subs = rt::draw_range("n_subs", 1, 4);
+	let buf = *rt::pick("buf", &[2usize, 1, 3, 8]);
+	let id_str = rt::chance("id_kind", 1, 3);
+	let max_conc = *rt::pick("max_conc", &[256usize, 256, 2]);
+	let with_handler = rt::chance("handler", 1, 3);
+	let n_push = rt::draw_range("n_push", 3, 40);
+	let mut paces = Vec::new();
+	let mut ends = Vec::new();
+	let mut server_close = Vec::new();
+	for _ in 0..n_subs {
+		paces.push(*rt::pick("pace", &[Pace::Eager, Pace::Slow, Pace::Stalled]));
+		let sc = rt::chance("server_close", 1, 4);
+		server_close.push(sc);
+		ends.push(if sc {
+			EndAct::ReadToEnd
+		} else {
+			match rt::draw("end", 4) {
+				0 | 1 => EndAct::ReadToEnd,
+				2 => EndAct::UnsubscribeAfter(rt::draw("after", 5)),
+				_ => EndAct::DropAfter(rt::draw("after", 5)),
+			}
+		});
+	}
+	rt::event("plan", format!("subs={n_subs} buf={buf} id_str={id_str} max_conc={max_conc} handler={with_handler} pushes={n_push} paces={paces:?} ends={ends:?} server_close={server_close:?}"));
+
+	let (wire, tx, rx) = Wire::new();
+	let client = Arc::new(
+		Client::builder()
+			.max_buffer_capacity_per_subscription(buf)
+			.max_concurrent_requests(max_conc)
+			.id_format(if id_str { IdKind::String } else { IdKind::Number })
+			.request_timeout(Duration::from_secs(60))
+			.build_with_tokio(tx, rx),
+	);
+	let subs: Arc<Mutex<Vec<SubRec>>> = Arc::new(Mutex::new((0..n_subs).map(|i| SubRec { nonce: i as u64 + 1, server_close_planned: server_close[i as usize], ..Default::default() }).collect()));
+	let pushes: Arc<Mutex<Vec<PushRec>>> = Arc::default();
+	let peer_done = Arc::new(AtomicBool::new(false));
+	let handler_rec: Arc<Mutex<(Vec<(u64, u64)>, Option<(u64, String)>)>> = Arc::default();
+
+	// ---------------- method-notification handler ----------------
+	let mut handler_task = None;
+	if with_handler {
+		let r: Result<Subscription<Value>, Error> = client.subscribe_to_method("mn").await;
+		if let Ok(mut h) = r {
+			let st = rt::event("handler-registered", "mn");
+			let rec = handler_rec.clone();
+			let pace = *rt::pick("hpace", &[Pace::Eager, Pace::Slow]);
+			handler_task = Some(rt::spawn("hconsumer", async move {
+				let _ = st;
+				loop {
+					if pace == Pace::Slow {
+						tokio::time::sleep(Duration::from_millis(7)).await;
+					}
+					match h.next().await {
+						Some(Ok(v)) => {
+							let s = rt::event("h-item", v.to_string());
+							rec.lock().unwrap().0.push((s, v.as_u64().unwrap_or(0)));
+						}
+						Some(Err(_)) => {}
+						None => {
+							let s = rt::event("h-ended", format!("{:?}", h.close_reason()));
+							rec.lock().unwrap().1 = Some((s, format!("{:?}", h.close_reason())));
+							break;
+						}
+					}
+				}
+				h
+			}));
+		}
+	}
+
+	// ---------------- peer ----------------
+	let peer = {
+		let (wire, subs, pushes, peer_done) = (wire.clone(), subs.clone(), pushes.clone(), peer_done.clone());
+		rt::spawn("peer", async move {
+			// pre-assigned subscription ids per nonce
+			let sid_of = |nonce: u64| -> Value { if nonce % 2 == 0 { json!(700 + nonce) } else { json!(format!("s{}", 700 + nonce)) } };
+			let mut pending: Vec<(Value, String, Value)> = Vec::new(); // (id, method, params)
+			let mut budget = n_push;
+			let mut payload = 10_000u64;
+			let mut closed_by_server: Vec<String> = Vec::new();
+			let mut tx_gone = false;
+			loop {
+				while let Some(m) = wire.try_next_out() {
+					if let Parsed::Call { id, method, params } = parse_out(&m.text) {
+						pending.push((id, method, params));
+					}
+				}
+				if budget == 0 && pending.is_empty() {
+					peer_done.store(true, Ordering::Relaxed);
+					if tx_gone {
+						break;
+					}
+					match wire.next_out().await {
+						Some(m) => {
+							if let Parsed::Call { id, method, params } = parse_out(&m.text) {
+								pending.push((id, method, params));
+							}
+						}
+						None => tx_gone = true,
+					}
+					continue;
+				}
+				let act = rt::draw("peer-act", 10);
+				if (act < 3 || budget == 0) && !pending.is_empty() {
+					let k = rt::draw("which", pending.len() as u32) as usize;
+					let (id, method, params) = pending.remove(k);
+					match method.as_str() {
+						"sub" => {
+							let nonce = super::nonce_of(&params).unwrap_or(0);
+							if rt::chance("refuse", 1, 8) {
+								wire.push_text(err_response(&id, -32000, "refused", None));
+								if let Some(s) = subs.lock().unwrap().iter_mut().find(|s| s.nonce == nonce) {
+									s.refused = true;
+								}
+							} else {
+								let sid = sid_of(nonce);
+								let seq = wire.push_text(ok_response(&id, &sid));
+								if let Some(s) = subs.lock().unwrap().iter_mut().find(|s| s.nonce == nonce) {
+									s.sub_id = Some(sid.to_string());
+									s.accept_seq = Some(seq);
+								}
+							}
+						}
+						"unsub" => {
+							wire.push_text(ok_response(&id, &json!(true)));
+						}
+						_ => {
+							wire.push_text(ok_response(&id, &json!(1)));
+						}
+					}
+					continue;
+				}
+				match act {
+					3 => tokio::time::sleep(Duration::from_millis(rt::draw_range("lat", 1, 20) as u64)).await,
+					4 => rt::yield_n(1).await,
+					_ if budget > 0 => {
+						// a group of 1..4 pushes, delivered singly or as one array
+						let g = rt::draw_range("group_n", 1, 4).min(budget);
+						let grouped = g > 1 && rt::chance("grouped", 1, 2);
+						let mut items: Vec<(String, PushKind)> = Vec::new();
+						for _ in 0..g {
+							budget -= 1;
+							payload += 1;
+							let all: Vec<(u64, bool)> = subs.lock().unwrap().iter().map(|s| (s.nonce, s.server_close_planned)).collect();
+							let k = rt::draw("push_kind", 20);
+							let (n, sc) = all[rt::draw("push_sub", all.len() as u32) as usize];
+							let sid = sid_of(n);
+							let item = match k {
+								0..=12 => (sub_notif("n", &sid, &json!(payload)), PushKind::Notif { sub: sid.to_string(), payload }),
+								13 => (sub_notif("n", &json!(999_999), &json!(payload)), PushKind::Notif { sub: "999999".into(), payload }),
+								14 => (sub_notif("n", &json!("nope"), &json!(payload)), PushKind::Notif { sub: "\"nope\"".into(), payload }),
+								15 | 16 => (method_notif("mn", Some(&json!(payload))), PushKind::Method { name: "mn".into(), payload }),
+								17 => (method_notif("other", Some(&json!([payload]))), PushKind::Method { name: "other".into(), payload }),
+								_ if sc && !closed_by_server.contains(&sid.to_string()) => {
+									closed_by_server.push(sid.to_string());
+									(sub_close("n", &sid, &json!("bye")), PushKind::Close { sub: sid.to_string() })
+								}
+								_ => (sub_notif("n", &sid, &json!(payload)), PushKind::Notif { sub: sid.to_string(), payload }),
+							};
+							items.push(item);
+						}
+						if grouped {
+							rt::probe("grouped_array");
+							let text = format!("[{}]", items.iter().map(|i| i.0.as_str()).collect::<Vec<_>>().join(","));
+							let seq = wire.push_text(text);
+							for (_, k) in items {
+								pushes.lock().unwrap().push(PushRec { seq, kind: k, grouped: true });
+							}
+						} else {
+							for (t, k) in items {
+								let seq = wire.push_text(t);
+								pushes.lock().unwrap().push(PushRec { seq, kind: k, grouped: false });
+							}
+						}
+					}
+					_ => rt::yield_n(1).await,
+				}
+			}
+		})
+	};
+
+	// ---------------- subscribers / consumers ----------------
+	let mut hs = Vec::new();
+	for i in 0..n_subs as usize {
+		let (client, subs) = (client.clone(), subs.clone());
+		let (pace, end) = (paces[i], ends[i]);
+		let nonce = i as u64 + 1;
+		let peer_done = peer_done.clone();
+		hs.push(rt::spawn("consumer", async move {
+			let r: Result<Subscription<Value>, Error> = client.subscribe("sub", rpc_params![nonce], "unsub").await;
+			let mut sub = match r {
+				Ok(s) => s,
+				Err(e) => {
+					rt::event("subscribe-failed", format!("nonce={nonce} {e:?}"));
+					return None;
+				}
+			};
+			drop(client);
+			let sid = match sub.kind() {
+				SubscriptionKind::Subscription(id) => serde_json::to_value(id).unwrap().to_string(),
+				_ => String::new(),
+			};
+			rt::event("subscribed", format!("nonce={nonce} sid={sid}"));
+			let mut taken = 0u32;
+			loop {
+				match end {
+					EndAct::UnsubscribeAfter(k) if taken >= k => {
+						let st = rt::event("user-unsubscribe", format!("nonce={nonce}"));
+						subs.lock().unwrap()[i].user_end = Some((st, "unsubscribe"));
+						let _ = sub.unsubscribe().await;
+						rt::event("user-unsubscribe-returned", format!("nonce={nonce}"));
+						return None;
+					}
+					EndAct::DropAfter(k) if taken >= k => {
+						let st = rt::event("user-drop", format!("nonce={nonce}"));
+						subs.lock().unwrap()[i].user_end = Some((st, "drop"));
+						drop(sub);
+						return None;
+					}
+					_ => {}
+				}
+				match pace {
+					Pace::Eager => {}
+					Pace::Slow => tokio::time::sleep(Duration::from_millis(rt::draw_range("slow", 1, 15) as u64)).await,
+					Pace::Stalled => {
+						// do not read until the peer has finished pushing
+						while !peer_done.load(Ordering::Relaxed) {
+							tokio::time::sleep(Duration::from_millis(25)).await;
+						}
+					}
+				}
+				match sub.next().await {
+					Some(Ok(v)) => {
+						taken += 1;
+						let st = rt::event("item", format!("nonce={nonce} {v}"));
+						subs.lock().unwrap()[i].yields.push((st, v.as_u64().unwrap_or(0)));
+					}
+					Some(Err(e)) => {
+						rt::event("item-err", format!("{e}"));
+					}
+					None => {
+						let st = rt::event("stream-ended", format!("nonce={nonce} {:?}", sub.close_reason()));
+						subs.lock().unwrap()[i].ended = Some((st, format!("{:?}", sub.close_reason())));
+						return Some(sub);
+					}
+				}
+			}
+		}));
+	}
+
+	// wait until the peer has pushed everything and everything is delivered and consumed
+	while !peer_done.load(Ordering::Relaxed) {
+		tokio::time::sleep(Duration::from_millis(50)).await;
+	}
+	tokio::time::sleep(Duration::from_secs(2)).await;
+	let still_connected = client.is_connected();
+	let conn_end_stamp = rt::event("dropping-client", format!("connected={still_connected}"));
+	// wire-level part of the oracle while the connection is still up
+	let model = check_streams_and_wire(&wire, &subs.lock().unwrap(), &pushes.lock().unwrap(), buf, max_conc, still_connected, false, conn_end_stamp);
+	drop(client);
+	let mut keep = Vec::new();
+	for h in hs {
+		if let Ok(Ok(s)) = tokio::time::timeout(Duration::from_secs(5), h).await {
+			keep.push(s);
+		}
+	}
+	if let Some(h) = handler_task {
+		let _ = tokio::time::timeout(Duration::from_secs(5), h).await;
+	}
+	let _ = model;
+	// final part: every stream that reads to the end has ended by now with the right contents
+	check_streams_and_wire(&wire, &subs.lock().unwrap(), &pushes.lock().unwrap(), buf, max_conc, still_connected, true, conn_end_stamp);
+	check_handler(&wire, &pushes.lock().unwrap(), &handler_rec.lock().unwrap(), buf, with_handler);
+	let _ = tokio::time::timeout(Duration::from_secs(5), peer).await;
+}
+
+/// Exact model of one stream: returns (expected enqueued payloads, lagged, closed_by(stamp, why)).
+fn model_stream(wire: &Wire, s: &SubRec, pushes: &[PushRec], buf: usize) -> (Vec<u64>, bool, Option<(u64, &'static str)>) {
+	let Some(sid) = &s.sub_id else { return (vec![], false, None) };
+	let Some(acc) = s.accept_seq.and_then(|q| wire.delivered_stamp(q)) else { return (vec![], false, None) };
+	// events: (stamp, order, kind)
+	#[derive(Debug)]
+	enum Ev {
+		Deliver(u64),
+		Close,
+		Take,
+		UserEnd,
+	}
+	let mut evs: Vec<(u64, u64, Ev)> = Vec::new();
+	for (i, p) in pushes.iter().enumerate() {
+		let Some(d) = wire.delivered_stamp(p.seq) else { continue };
+		if d <= acc {
+			continue;
+		}
+		match &p.kind {
+			PushKind::Notif { sub, payload } if sub == sid => evs.push((d, i as u64, Ev::Deliver(*payload))),
+			PushKind::Close { sub } if sub == sid => evs.push((d, i as u64, Ev::Close)),
+			_ => {}
+		}
+	}
+	for (st, _) in &s.yields {
+		evs.push((*st, 0, Ev::Take));
+	}
+	if let Some((st, _)) = s.user_end {
+		evs.push((st, 0, Ev::UserEnd));
+	}
+	evs.sort_by_key(|e| (e.0, e.1));
+	let mut enq: Vec<u64> = Vec::new();
+	let mut occupancy = 0usize;
+	let mut closed: Option<(u64, &'static str)> = None;
+	let mut lagged = false;
+	for (st, _, ev) in evs {
+		match ev {
+			Ev::Deliver(p) => {
+				if closed.is_some() {
+					continue;
+				}
+				if occupancy == buf {
+					lagged = true;
+					closed = Some((st, "lagged"));
+				} else {
+					occupancy += 1;
+					enq.push(p);
+				}
+			}
+			Ev::Close => {
+				if closed.is_none() {
+					closed = Some((st, "server-close"));
+				}
+			}
+			Ev::Take => occupancy = occupancy.saturating_sub(1),
+			Ev::UserEnd => {
+				if closed.is_none() {
+					closed = Some((st, "user"));
+				}
+			}
+		}
+	}
+	(enq, lagged, closed)
+}
+
+#[allow(clippy::too_many_arguments)]
+fn check_streams_and_wire(wire: &Wire, subs: &[SubRec], pushes: &[PushRec], buf: usize, max_conc: usize, still_connected: bool, fin: bool, conn_end_stamp: u64) {
+	// unsubscribe requests on the wire, per subscription id
+	let mut unsubs: BTreeMap<String, u32> = BTreeMap::new();
+	{
+		let w = wire.lock();
+		for m in &w.out_log {
+			if let Parsed::Call { method, params, .. } = parse_out(&m.text) {
+				if method == "unsub" {
+					let sid = params.as_array().and_then(|a| a.first()).map(|v| v.to_string()).unwrap_or_default();
+					*unsubs.entry(sid).or_insert(0) += 1;
+				}
+			}
+		}
+	}
+	let mut nontrivial = false;
+	for s in subs {
+		let Some(sid) = &s.sub_id else { continue };
+		if s.accept_seq.and_then(|q| wire.delivered_stamp(q)).is_none() {
+			continue;
+		}
+		let (enq, lagged, closed) = model_stream(wire, s, pushes, buf);
+		let got: Vec<u64> = s.yields.iter().map(|y| y.1).collect();
+		let grouped_involved = pushes.iter().any(|p| p.grouped && matches!(&p.kind, PushKind::Notif{sub,..} | PushKind::Close{sub} if sub == sid));
+		let g = if grouped_involved { "grouped" } else { "single" };
+		// 1. contents: what was yielded is a prefix of what the model enqueued (all of it when the stream ended)
+		if got.len() > enq.len() || got[..] != enq[..got.len()] {
+			// classify
+			let foreign = got.iter().find(|p| !enq.contains(p));
+			let sig = match foreign {
+				Some(p) => {
+					let owner = pushes.iter().find_map(|q| match &q.kind {
+						PushKind::Notif { sub, payload } if payload == p => Some(if sub == sid { "own-but-unexpected" } else { "foreign-subscription" }),
+						PushKind::Method { payload, .. } if payload == p => Some("method-notification"),
+						_ => None,
+					});
+					owner.unwrap_or("unknown-payload").to_string()
+				}
+				None => "order-or-duplicate".to_string(),
+			};
+			rt::violate(P, "stream-contents", format!("{sig}:{g}"), format!("subscription {sid} (buffer {buf}) yielded {got:?}, the model expects a prefix of {enq:?}"));
+		}
+		if !fin {
+			// 2. unsubscribe requests, checked while the connection is still alive
+			let n = unsubs.get(sid).copied().unwrap_or(0);
+			let why = closed.map(|c| c.1);
+			if still_connected {
+				match (why, s.user_end.map(|u| u.1)) {
+					(Some("lagged"), _) => {
+						rt::probe("lagged");
+						// if the server itself closed the subscription as well, the unsubscribe request is moot: 0 or 1
+						let server_closed_too = pushes.iter().any(|p| matches!(&p.kind, PushKind::Close{sub} if sub == sid) && wire.delivered_stamp(p.seq).is_some());
+						if n > 1 || (n != 1 && !server_closed_too) {
+							rt::violate(P, "unsubscribe-count", format!("lagged:{n}"), format!("subscription {sid} was closed for lagging; {n} unsubscribe requests were sent for it (expected exactly 1)"));
+						}
+					}
+					(Some("server-close"), _) => {
+						if n > 1 {
+							rt::violate(P, "unsubscribe-count", format!("server-close:{n}"), format!("subscription {sid}: {n} unsubscribe requests"));
+						}
+					}
+					(_, Some("unsubscribe")) => {
+						if n != 1 {
+							rt::violate(P, "unsubscribe-count", format!("explicit:{n}"), format!("explicit unsubscribe of {sid}: {n} unsubscribe requests were sent (expected exactly 1)"));
+						}
+					}
+					(_, Some("drop")) => {
+						// a later push for it that was processed forces exactly one; otherwise at most one, exactly one if the request queue had room
+						let dropped_at = s.user_end.unwrap().0;
+						let later_push = pushes.iter().any(|p| matches!(&p.kind, PushKind::Notif{sub,..} if sub == sid) && wire.delivered_stamp(p.seq).is_some_and(|d| d > dropped_at));
+						if n > 1 || ((later_push || max_conc >= 256) && n != 1) {
+							rt::violate(P, "unsubscribe-count", format!("drop:{n}"), format!("dropped subscription {sid}: {n} unsubscribe requests (later push processed: {later_push}, request queue capacity {max_conc})"));
+						}
+					}
+					(None, None) => {
+						if n != 0 {
+							rt::violate(P, "unsubscribe-count", format!("live:{n}"), format!("subscription {sid} is live by the model but {n} unsubscribe requests were sent"));
+						}
+					}
+					_ => {}
+				}
+			}
+			if lagged || s.yields.len() >= 2 {
+				nontrivial = true;
+			}
+			continue;
+		}
+		// 3. final: termination
+		if s.user_end.is_none() {
+			match (&s.ended, closed) {
+				(Some((st, reason)), c) => {
+					if got != enq {
+						rt::violate(P, "stream-contents", format!("ended-early:{g}"), format!("subscription {sid} ended after yielding {got:?}; the model enqueued {enq:?}"));
+					}
+					let want = if lagged { "Some(Lagged)" } else { "Some(ConnectionClosed)" };
+					if reason != want {
+						rt::violate(P, "close-reason", format!("{reason}-vs-{want}"), format!("subscription {sid} ended with close_reason {reason}, expected {want}"));
+					}
+					// ended before the model allows?
+					if c.is_none() && *st < conn_end_stamp {
+						rt::violate(P, "stream-ended-without-cause", g.to_string(), format!("subscription {sid} ended at #{st} although it was not closed by the server, did not lag and the connection was up"));
+					}
+				}
+				(None, Some((st, why))) => {
+					rt::violate(P, "stream-not-ended", format!("{why}:{g}"), format!("subscription {sid} was closed ({why}) at #{st} but its stream never ended"));
+				}
+				(None, None) => {
+					rt::violate(P, "stream-not-ended", format!("connection-end:{g}"), format!("subscription {sid}: the client was dropped but the stream never ended"));
+				}
+			}
+		}
+	}
+	if nontrivial {
+		rt::probe("nontrivial");
+	}
+}
+
+fn check_handler(wire: &Wire, pushes: &[PushRec], rec: &(Vec<(u64, u64)>, Option<(u64, String)>), buf: usize, with_handler: bool) {
+	if !with_handler {
+		return;
+	}
+	// the handler is registered before any push can be delivered (registration is awaited before the
+	// subscribers start) - all "mn" notifications are expected until overflow
+	let mut evs: Vec<(u64, u64, Option<u64>)> = Vec::new();
+	for (i, p) in pushes.iter().enumerate() {
+		if let PushKind::Method { name, payload } = &p.kind {
+			if name == "mn" {
+				if let Some(d) = wire.delivered_stamp(p.seq) {
+					evs.push((d, i as u64, Some(*payload)));
+				}
+			}
+		}
+	}
+	for (st, _) in &rec.0 {
+		evs.push((*st, 0, None));
+	}
+	evs.sort_by_key(|e| (e.0, e.1));
+	let mut occ = 0usize;
+	let mut enq = Vec::new();
+	let mut closed = false;
+	for (_, _, e) in evs {
+		match e {
+			Some(p) if !closed => {
+				if occ == buf {
+					closed = true;
+				} else {
+					occ += 1;
+					enq.push(p);
+				}
+			}
+			Some(_) => {}
+			None => occ = occ.saturating_sub(1),
+		}
+	}
+	let got: Vec<u64> = rec.0.iter().map(|x| x.1).collect();
+	if got != enq {
+		rt::violate(P, "handler-contents", if closed { "lagged" } else { "plain" }, format!("method-notification handler yielded {got:?}, the model expects {enq:?}"));
+	}
+}
